@@ -42,12 +42,13 @@ def k_sweep(chk, ctx, rng, n, tier):
         t_case = _t.time()
         d = 1 + it % 5
         lo, hi = (SZ_T if tier == 'thorough' else SZ_Q)[d]
+        if d == 5 and it % 2 == 1: hi = 3      # 5-D multi-step runs in exact rationals: 4 points per axis take a quarter of an hour each
         pts = int(rng.integers(lo, hi + 1))
         xx, kind = gen.grid(rng, pts)
         phi = gen.coarse(gen.density(rng, [pts] * d), 24)
         nus, ms, gammas, hs, th, fr, nm = random_model(rng, d)
         beta = gen.loguniform(rng, 0.2, 5) if (d == 1 and rng.random() < 0.5) else None
-        if d >= 4:      # keep exact rationals small in 4-D/5-D (still arbitrary floats, fewer mantissa bits)
+        if d >= 4 or (d == 3 and tier == 'thorough'):      # keep exact rationals small in 4-D/5-D and on the larger 3-D grids (still arbitrary floats, fewer mantissa bits)
             r = lambda v: gen.round_sig(v, 10)
             nus = [r(v) for v in nus]; gammas = [r(v) for v in gammas]; hs = [r(v) for v in hs]; th = r(th)
             ms = {k: r(v) for k, v in ms.items()}
